@@ -266,13 +266,13 @@ class Report:
     def add_summary(self, s):
         """summary record from the harness: evaluations, nontrivial (list of hashes or count), samples, traces"""
         self.cov["evaluations"] += int(s.get("evaluations", 0))
-        for h in s.get("nontrivial_hashes", []):
+        for h in (s.get("nontrivial_hashes") or []):
             self._nontrivial.add(h)
         self.cov["traces_validated_against_impl"] += int(s.get("traces", 0))
-        for x in s.get("samples", [])[:3]:
+        for x in (s.get("samples") or [])[:3]:
             if len(self.cov["samples"]) < 8:
                 self.cov["samples"].append(x)
-        for k, v in s.get("extra", {}).items():
+        for k, v in (s.get("extra") or {}).items():
             self.cov[k] = self.cov.get(k, 0) + v if isinstance(v, (int, float)) else v
 
     def violation(self, viol):
